@@ -112,12 +112,16 @@ impl<'xml> Deserializer<'xml> {
         loop {
             let ev = self.inner.read_event().map_err(invalid_xml)?;
             let de = match ev {
-                Event::Start(x) => DeEvent::Start(x),
+                Event::Start(x) => {
+                    check_attributes(&x)?;
+                    DeEvent::Start(x)
+                }
                 Event::End(x) => DeEvent::End(x),
                 Event::Text(x) => DeEvent::Text(x),
                 Event::Eof => DeEvent::Eof,
 
                 Event::Empty(x) => {
+                    check_attributes(&x)?;
                     // translate `<CSV/>` to `<CSV></CSV>`
                     self.next_slot = Some(DeEvent::End(x.to_end().into_owned()));
                     DeEvent::Start(x)
@@ -335,6 +339,28 @@ fn skip_white_space(text: &[u8]) -> DeResult {
         Ok(())
     } else {
         Err(DeError::InvalidContent)
+    }
+}
+
+/// No attribute carries a value for this decoder, but a start tag whose attributes
+/// are malformed makes the whole document malformed.
+fn check_attributes(start: &BytesStart<'_>) -> DeResult {
+    for attr in start.attributes() {
+        let attr = attr.map_err(|e| invalid_xml(e.into()))?;
+        if !is_xml_name(attr.key.as_ref()) || attr.value.contains(&b'<') {
+            return Err(DeError::InvalidContent);
+        }
+        attr.unescape_value().map_err(invalid_xml)?;
+    }
+    Ok(())
+}
+
+/// Checks the `Name` production of XML 1.0 (any non-ASCII character is let through)
+fn is_xml_name(name: &[u8]) -> bool {
+    let is_start = |b: u8| b.is_ascii_alphabetic() || matches!(b, b'_' | b':') || !b.is_ascii();
+    match name.split_first() {
+        Some((&first, rest)) => is_start(first) && rest.iter().all(|&b| is_start(b) || b.is_ascii_digit() || matches!(b, b'-' | b'.')),
+        None => false,
     }
 }
 
